@@ -429,7 +429,7 @@ func c15Scenario(c *fw.Ctx, idx int, rounds []c15Round) {
 
 func runC15(c *fw.Ctx) {
 	c.Level = "fault_enumeration"
-	c.Rule = "each scenario = a log of 30 / 520 / 2100 uniquely numbered messages (every tenth with a zero-length payload) consumed by a chain of separate processes on one data directory; every incarnation but the last is ended either by SIGKILL at an exact point of Consume (hook H5: before the callback, after it, after persisting the offset, after the truncation check; plus inside the callback, from the recording writer) for a chosen offset - all four points x offsets around batch edges (9,10,11,20), segment rolls (499-501, 999-1001) and the truncation at 2000 (1999-2001) - or by context cancellation after N hand-overs, some with appends before/concurrently with consumption; the last incarnation runs to the end. Per-incarnation logs (written with one write(2) per line) give: offsets handed over, payload read at that offset, callback-returned marks. Oracle: within a run offsets are contiguous and carry the payload appended there; a run starts at c+1 (c = greatest offset whose hand-over completed earlier) or at c if the previous incarnation was killed (the message in flight), never earlier, never later; over all runs every appended offset is handed over. distinct = (log length, chain of end points); non-trivial = >=1 restart"
+	c.Rule = "each scenario = a log of 30 / 520 / 2100 / 3100 / 5600 uniquely numbered messages (every tenth with a zero-length payload) consumed by a chain of separate processes on one data directory; every incarnation but the last is ended either by SIGKILL at an exact point of Consume (hook H5: before the callback, after it, after persisting the offset, after the truncation check; plus inside the callback, from the recording writer) for a chosen offset - all four points x offsets around batch edges (9,10,11,20), segment rolls (499-501, 999-1001) and the truncation at 2000 (1999-2001) - or by context cancellation after N hand-overs, some with appends before/concurrently with consumption; the last incarnation runs to the end; one chain reads 5600 records in a single run; several restart a fully caught-up consumer with nothing new appended (nothing may be handed over again). Per-incarnation logs (written with one write(2) per line) give: offsets handed over, payload read at that offset, callback-returned marks. Oracle: within a run offsets are contiguous and carry the payload appended there; a run starts at c+1 (c = greatest offset whose hand-over completed earlier) or at c if the previous incarnation was killed (the message in flight), never earlier, never later; over all runs every appended offset is handed over. distinct = (log length, chain of end points); non-trivial = >=1 restart"
 	c.Assume("appends concurrent with consumption are only used in incarnations that end by cancellation, so that SIGKILL never interrupts the commit-log library in the middle of a write (that would test the library, not wasp)")
 	points := []string{"beforeCallback", "afterCallback", "afterPersist", "afterTruncate"}
 	allPoints := append([]string{"inCallback"}, points...)
@@ -473,6 +473,14 @@ func runC15(c *fw.Ctx) {
 	}
 	// a consumer far behind the head of the log when it crosses the truncation points
 	scen = append(scen, []c15Round{{appendBefore: 3100, killPoint: "afterPersist", killOffset: 2000}, {killPoint: "beforeCallback", killOffset: 3000}, {final: true}})
+	// one uninterrupted run over a long log (more records than any read-ahead or batch limit of the consumer),
+	// then a restart at its very end with nothing new appended (must hand over nothing again)
+	scen = append(scen, []c15Round{{appendBefore: 30, stopAfter: 10}, {appendBefore: 5600, final: true}})
+	scen = append(scen, []c15Round{{appendBefore: 5600, stopAfter: 5600}, {}, {appendBefore: 7, final: true}})
+	// restart of a fully caught-up, idle consumer: once right after the hand-over of the last record, once more
+	// with nothing in between
+	scen = append(scen, []c15Round{{appendBefore: 40, stopAfter: 40}, {}, {}, {appendBefore: 2, final: true}})
+	scen = append(scen, []c15Round{{appendBefore: 700, stopAfter: 700}, {}, {final: true}})
 	if !c.Quick() {
 		rg := c.SubRng("c15", 0)
 		for i := 0; i < 220; i++ {
